@@ -64,6 +64,29 @@ def plan(tier):
     DOCS, PATHS, bounds = build(tier)
     PATHS = [(p, paths.render(p, "."), paths.render(p, "/")) for p in PATHS]
     EXTRA = []
+    # the full vocabulary (all 9 operators, slices, hash slices, anchors,
+    # int/str key twins) as 1-segment paths and behind 5 navigators, on a
+    # smaller corpus that includes anchor/alias decorations
+    vfull = paths.vocab("c01-full")
+    navs = [("key", "a"), ("idx", 0), ("all",), ("trav",),
+            ("search", ".", "=", "zz", True)]
+    pnav = [(s,) for s in vfull] + [(n, s) for n in navs for s in vfull
+                                    if not (n[0] == "trav" and s[0] == "trav")]
+    dnav = corpus.docs(3, (None, 1000, "a", "1000"), ("a", "b", "1000"))
+    dnav += corpus.collision_pack()
+    for base in (("m", (("a", "x"), ("b", ("l", ("y", 1000))), ("c", "z9"))),
+                 ("l", ("x", ("m", (("a", "y"), ("b", 1000))), "w")),
+                 ("m", (("a", ("l", ("x", "y"))), ("b", ("m", (("a", 1000),)))))):
+        dnav += corpus.decorations(base, key_alias=False)
+        dnav += corpus.decorations(base, name="B", max_alias=1,
+                                   key_alias=False)[:6]
+    if tier == "quick":
+        dnav = dnav[::2]
+    EXTRA.append((dnav, [(p, paths.render(p, "."), paths.render(p, "/"))
+                         for p in pnav]))
+    bounds["full_vocabulary"] = {"documents": len(dnav), "paths": len(pnav),
+                                 "vocabulary": len(vfull),
+                                 "navigators": len(navs)}
     if tier != "quick":
         # deeper slices of the space on smaller sub-corpora
         d4 = corpus.docs(4, (None, 1000, "a"), ("a", "b"))
@@ -73,7 +96,6 @@ def plan(tier):
         EXTRA.append((d4, p3))
         dfull = corpus.docs(4, (None, 1000, "a", "1000"),
                             ("a", "b", "1000")) + corpus.collision_pack()
-        vfull = paths.vocab("c01-full")
         pf = [(p, paths.render(p, "."), paths.render(p, "/"))
               for p in paths.upto(vfull, 2)]
         EXTRA.append((dfull, pf))
